@@ -12,7 +12,7 @@ from ..axis import suffix_axis
 
 DECIDES = ('for the dict formats (JSON/YAML/cfg share them): every key the importer requires is written by the matching exporter, nested '
            'control_points.points/weights included, and each key is written from and read into the same property of the same direction; type '
-           'maps of trim/container curves pair export_dict_X with import_dict_X for every type the exporter emits (AG1), and every membership-guarded lookup uses the key that was tested, so each element is dispatched on its own type (GK1); for smesh/vmesh: the '
+           'maps of trim/container curves pair export_dict_X with import_dict_X for every type the exporter emits (AG1), and every membership-guarded lookup uses the key that was tested, so each element is dispatched on its own type (GK1), and a list collected in a loop (trim curves) is assigned to the shape once, after the loop (AGG1); for smesh/vmesh: the '
            'header records (dimension, degrees, sizes, one knot vector per direction in direction order) are written and read at the same '
            'record/field positions and the points start after them (AG2); writer and reader permutations compose to the identity per slab - the '
            'file layout produced by the writer is exactly what the reader\'s flip expects, slab loops cover every w-slab, and the list passed to '
@@ -41,11 +41,40 @@ def check(m, run):
     file_helpers(m, run)
     wrappers(m, run)
     guard_keys(m, run)
+    aggregate_after_loop(m, run)
     from . import c10
     c10.iteration(m, run)
     run.floor('AG1.keys', 25, 'mandatory keys of the five dict pairs')
     run.floor('AG2.record-table', 14, 'header fields of smesh (7) and vmesh (10)')
     run.floor('WV1.weight-form', 4, 'two writers, two readers')
+
+
+def aggregate_after_loop(m, run):
+    """AGG1: a list that is collected by append() inside a loop is handed to the object (attribute assignment or add()) after that loop,
+    not inside it: several of the importing setters accumulate (Surface.trims appends), so assigning the growing list in every
+    iteration stores the first elements again and again"""
+    n = 0
+    for fi in sorted(m.functions_in('_exchange'), key=lambda f: f.key):
+        for lp in [x for x in walk_no_nested(fi.node) if isinstance(x, ast.For)]:
+            appended = {c.func.value.id for c in ast.walk(lp) if isinstance(c, ast.Call) and isinstance(c.func, ast.Attribute) and c.func.attr == 'append'
+                        and isinstance(c.func.value, ast.Name)}
+            # only lists created before the loop (accumulators of this loop)
+            created = {a.targets[0].id for a in walk_no_nested(fi.node) if isinstance(a, ast.Assign) and isinstance(a.targets[0], ast.Name)
+                       and isinstance(a.value, (ast.List, ast.Call)) and a.lineno < lp.lineno and (isinstance(a.value, ast.List) and not a.value.elts
+                                                                                              or (isinstance(a.value, ast.Call) and norm(a.value.func) == 'list' and not a.value.args))}
+            inner_created = {a.targets[0].id for a in ast.walk(lp) if isinstance(a, ast.Assign) and isinstance(a.targets[0], ast.Name)}
+            accs = (appended & created) - inner_created
+            for acc in sorted(accs):
+                handed = [a for a in walk_no_nested(fi.node) if isinstance(a, ast.Assign) and isinstance(a.targets[0], ast.Attribute) and isinstance(a.value, ast.Name) and a.value.id == acc]
+                for h in handed:
+                    n += 1
+                    inside = any(x is h for x in ast.walk(lp))
+                    run.ob('AGG1.collected-list-handed-over-after-its-loop', '%s :: %s' % (fi.key, norm(h)), not inside,
+                           'assigned once, after the loop that fills `%s`' % acc if not inside else
+                           '`%s` is executed in every iteration of the loop that is still filling `%s`: with an accumulating setter the first elements are stored repeatedly '
+                           '(n items come back as n(n+1)/2)' % (norm(h), acc), site(fi, h))
+    if n < 1:
+        raise AnalysisError('AGG1: no collected list handed to an object found in _exchange')
 
 
 def guard_keys(m, run):
@@ -380,37 +409,52 @@ def ag2_and_layout(m, run):
         wf = [c for c in walk_no_nested(fw.node) if isinstance(c, ast.Call) and norm(c.func).endswith('write_file') and len(c.args) >= 2 and isinstance(c.args[1], ast.Name)]
         lvar = wf[0].args[1].id if wf else 'line'
         ploops = [n for n in ast.walk(loops[0]) if isinstance(n, ast.For) and isinstance(n.iter, ast.Name) and isinstance(n.target, ast.Name) and _writes_line(n, lvar)]
+        written_reported = False
         if len(ploops) != 1:
-            raise AnalysisError('%s: point record loop not found' % wname)
-        Lfile = itw.env.get(ploops[0].iter.id)
-        Lfile = itw.finish(Lfile) if isinstance(Lfile, Fresh) else Lfile
-        if not isinstance(Lfile, Lay):
-            raise AnalysisError('%s: file layout of the point records not resolved (%r)' % (wname, Lfile))
-        run.extra.setdefault('file_layouts', {})[wname] = repr(Lfile)
+            # the point records are not written from one named list: decide at least the weight form of whatever is written
+            envw0, formw0 = weight_form(fw.node, ovar)
+            any_loops = [n for n in ast.walk(loops[0]) if isinstance(n, ast.For) and isinstance(n.target, ast.Name) and _writes_line(n, lvar)
+                         and not any(isinstance(x, ast.For) and x is not n and _writes_line(x, lvar) for x in ast.walk(n))]
+            forms = [formw0(n.iter) for n in any_loops]
+            forms = [f for f in forms if f is not None]
+            if forms and any(f != 'U4' for f in forms):
+                bad = [f for f in forms if f != 'U4'][0]
+                run.ob('WV1.weight-form', '%s :: points written' % wname, False,
+                       'the point records are written in form %s; the format stores (x, y, z, w), i.e. weighted points passed through generate_ctrlpts_weights' % bad, site(fw))
+                written_reported = True
+            else:
+                raise AnalysisError('%s: point record loop not found' % wname)
+        if not written_reported:
+            Lfile = itw.env.get(ploops[0].iter.id)
+            Lfile = itw.finish(Lfile) if isinstance(Lfile, Fresh) else Lfile
+            if not isinstance(Lfile, Lay):
+                raise AnalysisError('%s: file layout of the point records not resolved (%r)' % (wname, Lfile))
+            run.extra.setdefault('file_layouts', {})[wname] = repr(Lfile)
 
-        class RInterp(Interp):
-            def ev(self, e, _L=Lfile, _c=cvar):
-                if isinstance(e, ast.Subscript) and norm(e.value) == _c and isinstance(e.slice, ast.Slice):
-                    return _L
-                if isinstance(e, ast.Call) and norm(e.func) == 'int' and e.args and isinstance(e.args[0], ast.Subscript) \
-                        and isinstance(e.args[0].value, ast.Subscript) and norm(e.args[0].value.value) == _c:
-                    rec, fld = e.args[0].value.slice.value, e.args[0].slice.value
-                    if rec == 2:
-                        return S.size(fld)
-                    return UNK
-                if isinstance(e, ast.Call) and isinstance(e.func, ast.Attribute) and e.func.attr in ('generate_volume', 'generate_surface'):
-                    return Obj('R', pdim, labels=S.labels)
-                return Interp.ev(self, e)
-        itr = RInterp(rname, {}, summ, select=lambda t: False)
-        itr.run(fr.node.body)
-        n_ = ld.emit(run, fr, itr, '[reader of %s]' % repr(Lfile))
-        if not any(c[0] == 'LY3' and c[2] is not None for c in itr.checked):
-            raise AnalysisError('%s: set_ctrlpts of the reader not resolved' % rname)
+            class RInterp(Interp):
+                def ev(self, e, _L=Lfile, _c=cvar):
+                    if isinstance(e, ast.Subscript) and norm(e.value) == _c and isinstance(e.slice, ast.Slice):
+                        return _L
+                    if isinstance(e, ast.Call) and norm(e.func) == 'int' and e.args and isinstance(e.args[0], ast.Subscript) \
+                            and isinstance(e.args[0].value, ast.Subscript) and norm(e.args[0].value.value) == _c:
+                        rec, fld = e.args[0].value.slice.value, e.args[0].slice.value
+                        if rec == 2:
+                            return S.size(fld)
+                        return UNK
+                    if isinstance(e, ast.Call) and isinstance(e.func, ast.Attribute) and e.func.attr in ('generate_volume', 'generate_surface'):
+                        return Obj('R', pdim, labels=S.labels)
+                    return Interp.ev(self, e)
+            itr = RInterp(rname, {}, summ, select=lambda t: False)
+            itr.run(fr.node.body)
+            n_ = ld.emit(run, fr, itr, '[reader of %s]' % repr(Lfile))
+            if not any(c[0] == 'LY3' and c[2] is not None for c in itr.checked):
+                raise AnalysisError('%s: set_ctrlpts of the reader not resolved' % rname)
         # ---------------- weight form
         envw, formw = weight_form(fw.node, ovar)
         emitted = [n.iter for n in walk_no_nested(fw.node) if isinstance(n, ast.For) and isinstance(n.iter, ast.Name) and n.iter.id in envw and _writes_line(n, lvar)]
         fw_form = envw.get(emitted[0].id) if emitted else None
-        run.ob('WV1.weight-form', '%s :: points written' % wname, fw_form == 'U4',
+        if not written_reported:
+          run.ob('WV1.weight-form', '%s :: points written' % wname, fw_form == 'U4',
                'file receives (x, y, z, w): weighted points divided by their weight' if fw_form == 'U4' else
                'the point records are written in form %s; the format stores (x, y, z, w), i.e. weighted points passed through generate_ctrlpts_weights' % fw_form, site(fw))
         start = {}
